@@ -358,6 +358,9 @@ where
         let (write_half, read_half) = Self::split_stream(stream);
         self.write_half = write_half;
         self.read_half = read_half;
+
+        // The task reading replies was bound to the old stream and has ended with it
+        poll_replies(self.read_half.clone(), self.pending_requests.clone());
     }
 
     fn get_connection(&self) -> SharedConnection {
